@@ -559,6 +559,12 @@ theorem polStep_noWeaker (st : PolState) (s : PSource) (h : NoWeaker Gen.closure
     · simp only [hi, if_true]
       exact noWeaker_writes _ policy_writers_only_tighten _ h
     · simp only [hi, Bool.false_eq_true, if_false]; exact h
+  | helper extra =>
+    simp only [polStep, carries_false, Bool.false_eq_true, if_false]
+    by_cases hi : freshInstalled Gen.polShape = true
+    · simp only [hi, if_true]
+      exact noWeaker_writes _ (fun w hw => policy_writers_only_tighten w ((List.mem_filter.mp hw).1)) _ h
+    · simp only [hi, Bool.false_eq_true, if_false]; exact h
 
 theorem policyAfter_noWeaker (srcs : List PSource) :
     ∀ st : PolState, NoWeaker Gen.closure st.global →
@@ -598,6 +604,9 @@ theorem closed_refused_any_config (srcs : List PSource) (ep : String) (t : Bool)
     authorizeWith Gen.closure (modelPolicy srcs) t ep = false :=
   noWeaker_localOnly (config_sources_cannot_widen srcs) t hl
 
+/-- package `cmdutils` (the daemon's configuration helper) does not write the table -/
+theorem no_cmdutils_writes : helperWrites Gen.polShape = [] := by decide
+
 theorem polStep_global_of_no_follower (st : PolState) (s : PSource) (hs : s ≠ .follower) :
     (polStep Gen.polShape st s).global = st.global := by
   cases s with
@@ -605,6 +614,7 @@ theorem polStep_global_of_no_follower (st : PolState) (s : PSource) (hs : s ≠ 
   | load extra => simp [polStep, carries_false]
   | env extra => simp [polStep, carries_false]
   | follower => exact absurd rfl hs
+  | helper extra => simp [polStep, carries_false, no_cmdutils_writes]
 
 /-- **The table is not configurable**: without the follower's assignments, the entries a file or the environment carry
     never reach it - the `Config` holds the shipped table, or none at all (nil map, before `Default`/`LoadJSON`). -/
@@ -664,11 +674,6 @@ theorem polRpcHolds_iff (i : PolRpcInput) (o : Obs) :
   unfold polRpcHolds polRpcClauses
   cases i.trusted <;> cases o <;> cases localOnly i.ep <;> simp
 
-/-- NOT proved this round (validated by the correspondence run of suite `pol` only): every ENTRY of the table in effect
-    carries a value whose documented meaning (2 = open, 1 = trusted) is no wider than the key's intent. The theorems
-    above are about what the closure does with the table, which is what the property needs. -/
-def pol_table_meets_spec : Prop := ∀ srcs : List PSource, polHolds (modelPolicy srcs) = true
-
 /-- the closure gives a table value exactly its documented meaning: 2 open, 1 trusted, anything else closed -/
 theorem closure_reads_value (v : Int) : (armOf Gen.closure.cases Gen.closure.dflt v).level = specLevel v := by
   unfold specLevel
@@ -717,5 +722,161 @@ theorem configured_class_respected (i : RpcInput) (ovs : List (String × Option 
 /-- a follower that serves its closed endpoint to a trusted remote caller fails the clause -/
 example : rpcCfgClauses (some 0) ⟨.follower, false, ⟨.crdt, [.load [some 1]], []⟩, 0, .remote 1, "Cluster.RepoGCLocal", true⟩ .passed
   = [("configured_class_respected", false)] := by decide
+
+/-! ## the entry-wise reading of the table in effect (round 8b: was `def pol_table_meets_spec : Prop`) -/
+
+/-- every ENTRY of a table carries a value whose documented meaning (2 = open, 1 = trusted, anything else closed) is no
+    wider than the key's intent -/
+def EntriesOk (pol : Policy) : Prop := ∀ e ∈ pol, specLevel e.2 ≤ (intentOf e.1).level
+
+theorem shipped_entries_ok : EntriesOk Gen.policy := by unfold EntriesOk; decide
+
+theorem entriesOk_override {pol : Policy} (h : EntriesOk pol) (k : String) (v : Int)
+    (hv : specLevel v ≤ (intentOf k).level) : EntriesOk (override pol k (some v)) := by
+  intro e he
+  simp only [override, List.mem_cons, List.mem_filter] at he
+  rcases he with rfl | ⟨hm, _⟩
+  · exact hv
+  · exact h e hm
+
+/-- deleting an entry (Go `delete(m, k)`) keeps the entry-wise reading too -/
+theorem entriesOk_delete {pol : Policy} (h : EntriesOk pol) (k : String) : EntriesOk (override pol k none) := by
+  intro e he
+  simp only [override, List.mem_filter] at he
+  exact h e he.1
+
+theorem entriesOk_writes (ws : List PolWrite) (hw : ∀ w ∈ ws, specLevel w.value ≤ (intentOf w.key).level) :
+    ∀ pol : Policy, EntriesOk pol → EntriesOk (ws.foldl (fun q w => override q w.key (some w.value)) pol) := by
+  induction ws with
+  | nil => intro pol h; exact h
+  | cons w rest ih =>
+    intro pol h
+    simp only [List.foldl_cons]
+    exact ih (fun w' hw' => hw w' (List.mem_cons_of_mem _ hw')) _
+      (entriesOk_override h w.key w.value (hw w (List.mem_cons_self ..)))
+
+/-- the writers found in the sources, read by the DOCUMENTED meaning of the constants (not through the closure) -/
+theorem policy_writers_spec_level : ∀ w ∈ Gen.polShape.keyedWrites, specLevel w.value ≤ (intentOf w.key).level :=
+  fun w hw => closure_reads_value w.value ▸ policy_writers_only_tighten w hw
+
+theorem polStep_entriesOk (st : PolState) (s : PSource) (h : EntriesOk st.global) :
+    EntriesOk (polStep Gen.polShape st s).global := by
+  cases s with
+  | default => exact h
+  | load extra => simp only [polStep, carries_false, Bool.false_and, Bool.false_eq_true, if_false]; exact h
+  | env extra => simp only [polStep, carries_false, Bool.false_and, Bool.false_eq_true, if_false]; exact h
+  | follower =>
+    simp only [polStep]
+    by_cases hi : st.installed = true
+    · simp only [hi, if_true]
+      exact entriesOk_writes _ policy_writers_spec_level _ h
+    · simp only [hi, Bool.false_eq_true, if_false]; exact h
+  | helper extra =>
+    simp only [polStep, carries_false, Bool.false_eq_true, if_false]
+    by_cases hi : freshInstalled Gen.polShape = true
+    · simp only [hi, if_true]
+      exact entriesOk_writes _ (fun w hw => policy_writers_spec_level w ((List.mem_filter.mp hw).1)) _ h
+    · simp only [hi, Bool.false_eq_true, if_false]; exact h
+
+theorem policyAfter_entriesOk (srcs : List PSource) :
+    ∀ st : PolState, EntriesOk st.global → EntriesOk (srcs.foldl (polStep Gen.polShape) st).global := by
+  induction srcs with
+  | nil => intro st h; exact h
+  | cons s rest ih => intro st h; exact ih _ (polStep_entriesOk st s h)
+
+/-- for every sequence of configuration steps, every entry of the table in effect is no wider than intended -/
+theorem config_entries_ok (srcs : List PSource) : EntriesOk (modelPolicy srcs) := by
+  unfold modelPolicy policyOf PolState.table policyAfter
+  by_cases hi : (srcs.foldl (polStep Gen.polShape) { global := Gen.policy, installed := false }).installed = true
+  · simp only [hi, if_true]
+    exact policyAfter_entriesOk srcs _ shipped_entries_ok
+  · simp only [hi, Bool.false_eq_true, if_false]
+    intro e he; cases he
+
+/-- the Bool checker of the `pol` observation read as a proposition -/
+theorem polHolds_iff (table : Policy) : polHolds table = true ↔ EntriesOk table := by
+  unfold polHolds polClauses EntriesOk
+  simp only [List.all_cons, List.all_nil, Bool.and_true, List.all_eq_true, decide_eq_true_eq]
+
+/-- **the model's table meets the `pol` clause for every configuration** (this was the unproved `def` of the first pass) -/
+theorem pol_table_meets_spec (srcs : List PSource) : polHolds (modelPolicy srcs) = true :=
+  (polHolds_iff _).mpr (config_entries_ok srcs)
+
+example : polHolds (modelPolicy [.default, .load [("Cluster.Pin", 2)], .follower, .env [("Cluster.Pins", 1)], .default]) = true := by
+  decide
+
+/-- refutation: an entry `Cluster.Pin: RPCTrusted` fails the reading (the closure-level theorems would not notice a table
+    that is never served; this one is about the `Config` itself) -/
+theorem widened_entry_fails : polHolds (override Gen.policy "Cluster.Pin" (some 1)) = false := by decide
+
+example : polHolds (modelPolicy [.helper [("Cluster.Pin", 2)], .follower, .helper []]) = true := by decide
+
+/-- the daemon's path (`cmdutils.NewLoadedConfigHelper` + `SetupTracing`) hands `NewCluster` exactly the shipped table,
+    whatever the service.json carries -/
+theorem daemon_path_installs_shipped (extra : List (String × Int)) : modelPolicy [.helper extra] = Gen.policy := by
+  have := policy_not_configurable [.helper extra] (by simp)
+  rw [this]
+  have hi : modelInstalled [.helper extra] = true := by
+    simp only [modelInstalled, policyAfter, List.foldl_cons, List.foldl_nil, polStep]
+    decide
+  simp [hi]
+
+/-- refutation of the flagged-only mutant of the first pass: a keyed write of `RPCOpen` inside `cmdutils` reaches the
+    served table through the daemon's path and opens `Cluster.Pins` to untrusted peers -/
+theorem cmdutils_writer_would_open :
+    authorizeWith Gen.closure
+      (policyOf { Gen.polShape with keyedWrites := [{ dir := "cmdutils", fn := "SetupTracing", key := "Cluster.Pins", value := 2 }] }
+        Gen.policy [.helper []]) false "Cluster.Pins" = true := by decide
+
+/-! ## what the handlers behind the endpoints reach (round 8b)
+
+`Gen.handlerCalls` (all endpoints, direct calls) and `Gen.openReach` (the RPCOpen endpoints, followed transitively through
+the methods of `*Cluster`) are regenerated from rpc_api.go and the root package on every run. -/
+
+/-- the reach table covers exactly the endpoints the shipped table opens -/
+theorem open_reach_covers_open :
+    Gen.openReach.map (·.ep) = (Gen.policy.filter (fun e => e.2 == Gen.constOpen)).map (·.1) := by decide
+
+/-- every clause about the handlers of the open endpoints holds for today's source: they call nothing outside the
+    identity / join allow-list, forward only to open endpoints, and nothing escaped the translator -/
+theorem open_handlers_harmless : ∀ r ∈ Gen.openReach, reachHolds r = true := by decide
+
+/-- nothing on the allow-list alters the pinset, drives the tracker / IPFS / allocator or injects metrics -/
+theorem handshake_calls_do_not_drive : ∀ c ∈ handshakeMayCall, drives c = false := by decide
+
+/-- the Bool checker read as a proposition -/
+theorem reachHolds_iff (r : Reach) :
+    reachHolds r = true ↔
+      ((∀ c ∈ r.calls, c ∈ handshakeMayCall) ∧ (∀ t ∈ r.forwards, intentOf t = .open_) ∧ r.unread = []) := by
+  unfold reachHolds reachClauses
+  simp only [List.all_cons, List.all_nil, Bool.and_true, Bool.and_eq_true, List.all_eq_true, List.contains_eq_mem,
+    decide_eq_true_eq, beq_iff_eq, List.isEmpty_iff]
+
+/-- **no open endpoint's handler reaches a pinset-mutating / IPFS-driving call**, through any chain of `*Cluster` methods -/
+theorem open_handlers_never_drive : ∀ r ∈ Gen.openReach, ∀ c ∈ r.calls, drives c = false := by
+  intro r hr c hc
+  exact handshake_calls_do_not_drive c (((reachHolds_iff r).mp (open_handlers_harmless r hr)).1 c hc)
+
+/-- **no confused deputy**: whatever the serving peer calls over RPC - with its own credentials - while serving an open
+    endpoint is itself an endpoint the untrusted caller could have called directly -/
+theorem open_handlers_forward_only_open : ∀ r ∈ Gen.openReach, ∀ t ∈ r.forwards, t ∈ openSet := by
+  intro r hr t ht
+  exact intentOf_open_mem (((reachHolds_iff r).mp (open_handlers_harmless r hr)).2.1 t ht)
+
+/-- every handler is fully read by the translator and makes no RPC call of its own; a handler of the four component
+    services uses only the one component its API type wraps (the `Cluster` service wraps the whole peer) -/
+theorem handlers_stay_in_component :
+    ∀ r ∈ Gen.handlerCalls, r.unread = [] ∧ r.forwards = [] ∧
+      (r.svc == "Cluster" || r.calls.all (fun c => c.1 == componentOf r.svc)) = true := by decide
+
+/-- the handler table covers exactly the reflected endpoints -/
+theorem handler_table_complete : Gen.handlerCalls.map (·.ep) = Gen.methods := by decide
+
+/-- refutations: the alternatives a realistic wrong edit would implement fail the clauses -/
+example : reachHolds ⟨"Cluster", "Cluster.PeerAdd", [("consensus", "AddPeer"), ("consensus", "Trust")], ["Cluster.ID"], []⟩
+    = false := by decide
+example : reachHolds ⟨"Cluster", "Cluster.PeerAdd", [("consensus", "AddPeer")], ["Cluster.ID", "Cluster.Pin"], []⟩
+    = false := by decide
+example : drives ("consensus", "LogPin") = true ∧ drives ("ipfs", "Pin") = true ∧ drives ("tracker", "Track") = true := by decide
 
 end CV.C07
